@@ -60,6 +60,17 @@ def run(ck):
         tp = os.path.join(ck.dir, "g%d.ndjson" % lvl)
         deaths = vlib.run_executions(exe, lambda st: ["c07", "replay", sp, st, lvl], len(scripts), tp)
         vlib.conformance(ck, name, "TraceSeqGap", "trace.cfg", tp, deaths, diag_of, min_events=len(scripts))
+    # ---- F: the same histories with every allocation request of the LAST call failed in turn (C08 on C07's histories):
+    # the call reports failure and the sequence is as it was, or succeeds as usual
+    fscripts = [script_of(h) for h in hists if h[-1]["op"] in ("add", "put", "insert", "shrink")]
+    ck.extra["f_scripts"] = len(fscripts)
+    fp = os.path.join(ck.dir, "f.scripts")
+    with open(fp, "w") as f:
+        f.write("\n".join(fscripts) + "\n")
+    for lvl, name in ((0, "F:histories-with-failing-allocations(array_list)"), (1, "F:histories-with-failing-allocations(json_object array)")):
+        tp = os.path.join(ck.dir, "f%d.ndjson" % lvl)
+        deaths = vlib.run_executions(exe, lambda st: ["c07", "replay", fp, st, lvl, 1], len(fscripts), tp)
+        vlib.conformance(ck, name, "TraceSeqGap", "trace.cfg", tp, deaths, diag_of, min_events=1000)
     n = 20000 if thorough else 1200
     tp = os.path.join(ck.dir, "v.ndjson")
     deaths = vlib.run_executions(exe, lambda st: ["c07", "drive", st, n, 100], n, tp)
